@@ -1051,7 +1051,7 @@ func checkCallback(c *checkCtx) {
 		c.sample("race pass")
 		return
 	}
-	n := c.pick(150, 7500)
+	n := c.pick(110, 7500)
 	var hits [vpPointCount]uint64
 	samples := 0
 	ownViolations := 0
